@@ -18,13 +18,20 @@ import (
 
 type Clause struct {
 	Kind string // requires ensures modifies invariant assert assume
+	Label string // optional stable name (tag id=...)
 	Tags []string
 	Text string
 	Expr ast.Expr
 	Src  string // file:line
 }
 
+type LoopLet struct {
+	Name string
+	C    *Clause
+}
+
 type LoopSpec struct {
+	Lets       []LoopLet
 	Unroll     int
 	Invariants []*Clause
 	Modifies   []*Clause // extra havoc inside the loop
@@ -50,6 +57,7 @@ type Contract struct {
 }
 
 type GhostDecl struct {
+	NonNeg bool
 	Name  string
 	NArgs int
 	Sort  *Sort // sort of the region
@@ -136,8 +144,20 @@ func (S *Specs) LoadFile(path string, goFile bool) error {
 				tags = append(tags, t)
 			}
 		}
+		label := ""
+		{
+			var keep []string
+			for _, t := range tags {
+				if strings.HasPrefix(t, "id=") {
+					label = t[3:]
+				} else {
+					keep = append(keep, t)
+				}
+			}
+			tags = keep
+		}
 		mkClause := func(kind, text string) *Clause {
-			c := &Clause{Kind: kind, Tags: tags, Text: text, Src: src}
+			c := &Clause{Kind: kind, Tags: tags, Text: text, Src: src, Label: label}
 			last = c
 			return c
 		}
@@ -218,6 +238,12 @@ func (S *Specs) LoadFile(path string, goFile bool) error {
 				ls.Unroll = k
 			case strings.HasPrefix(body, "invariant"):
 				ls.Invariants = append(ls.Invariants, mkClause("invariant", strings.TrimSpace(body[9:])))
+			case strings.HasPrefix(body, "let "):
+				eq := strings.Index(body, "=")
+				if eq < 0 {
+					return fmt.Errorf("%s: let needs '='", src)
+				}
+				ls.Lets = append(ls.Lets, LoopLet{strings.TrimSpace(body[4:eq]), mkClause("let", strings.TrimSpace(body[eq+1:]))})
 			case strings.HasPrefix(body, "modifies"):
 				ls.Modifies = append(ls.Modifies, mkClause("modifies", strings.TrimSpace(body[8:])))
 			default:
@@ -236,6 +262,11 @@ func (S *Specs) LoadFile(path string, goFile bool) error {
 			}
 		case "ghost":
 			// ghost name(a, b) int
+			nonneg := false
+			if strings.HasSuffix(rest, " nonneg") {
+				nonneg = true
+				rest = strings.TrimSpace(strings.TrimSuffix(rest, " nonneg"))
+			}
 			r := regexp.MustCompile(`^(\w+)\(([^)]*)\)\s*(\w+)$`).FindStringSubmatch(rest)
 			if r == nil {
 				return fmt.Errorf("%s: cannot parse ghost decl", src)
@@ -259,7 +290,7 @@ func (S *Specs) LoadFile(path string, goFile bool) error {
 			for i := 0; i < n; i++ {
 				s = SArr(s)
 			}
-			S.Ghosts[r[1]] = &GhostDecl{Name: r[1], NArgs: n, Sort: s, Res: res}
+			S.Ghosts[r[1]] = &GhostDecl{Name: r[1], NArgs: n, Sort: s, Res: res, NonNeg: nonneg}
 			cur, last = nil, nil
 		case "spec":
 			// spec [rec] name(a int, b seq) int = expr     |  spec name(a int) bool   (uninterpreted)
@@ -321,6 +352,9 @@ func (S *Specs) Finish() error {
 		all = append(all, c.Modifies...)
 		all = append(all, c.Panics...)
 		for _, l := range c.Loops {
+			for _, lt := range l.Lets {
+				all = append(all, lt.C)
+			}
 			all = append(all, l.Invariants...)
 			all = append(all, l.Modifies...)
 		}
